@@ -252,7 +252,7 @@ func (ex *Explorer) worker() {
 		}
 		// long-lived incremental solver sessions grow without bound (cvc5
 		// reached 4 GB in 200k-path runs): recycle them between paths
-		if solver.Stats.Queries > 4000 {
+		if solver.Stats.Queries > 4000 || solver.rssMB() > 1200 {
 			ex.mu.Lock()
 			ex.Solver.add(solver.Stats)
 			ex.mu.Unlock()
@@ -264,7 +264,7 @@ func (ex *Explorer) worker() {
 				solver.Stats = SolverStats{}
 			}
 		}
-		if ws.fb != nil && ws.fb.Stats.Queries > 1500 {
+		if ws.fb != nil && (ws.fb.Stats.Queries > 1500 || ws.fb.rssMB() > 1200) {
 			ex.mu.Lock()
 			ex.Solver.add(ws.fb.Stats)
 			ex.mu.Unlock()
